@@ -41,6 +41,7 @@ RULE = ('case = one decode (trajectory) or one lattice (geometry: all its '
         'the decode performed at least one sweep step that flipped an edge')
 ASSUMPTIONS = ['supported size family = pv/families.py']
 REQUIRED_COUNTERS = ['retained_corrections_rechecked',
+                     'syndromes_in_another_dtype',
                      'syndrome_arrays_decoded_twice',
                      'edges_geometry_checked', 'sweep_steps_observed',
                      'edge_flips_observed', 'decodes_observed',
@@ -407,8 +408,11 @@ def run_traj(task, out):
     # one measured syndrome array per error, handed to every decoder (and
     # for every third error twice to the same one)
     Hs = gf2.pack_rows(code.stabilizer_matrix)
+    sdt = ['uint8', 'bool', 'int64', 'uint8', 'float64', 'int32']
     measured = {e: gf2.unpack(gf2.syndrome_int(Hs, e, n), len(Hs))
-                .astype('uint8') for e in errs}
+                .astype(sdt[k % len(sdt)]) for k, e in enumerate(errs)}
+    out.count('syndromes_in_another_dtype',
+              sum(1 for v in measured.values() if v.dtype != np.uint8))
     for sd in seeds:
         dec = decoder_class(dname)(code, em, 0.1, seed=sd, **kw)
         for ei, e in enumerate(errs):
